@@ -18,8 +18,9 @@ type StrV struct{ B []*Term }
 
 type SliceV struct {
 	Cells []*Cell // backing cells from this slice's offset to end of capacity
-	Len   int
-	Nil   bool
+	Len    int
+	Nil    bool
+	Frozen bool // read-only merged view (capacity unknown)
 }
 
 func (s *SliceV) Cap() int { return len(s.Cells) }
@@ -61,8 +62,9 @@ type MapObj struct {
 type Cell struct {
 	V    Value
 	Kids []*Cell
-	T    types.Type
-	id   int
+	T      types.Type
+	id     int
+	Frozen bool
 }
 
 var cellSeq int
